@@ -264,7 +264,7 @@ func c13World(t *testing.T, p c13Params) rt.Result {
 
 func TestC13(t *testing.T) {
 	c := rt.Get()
-	n := c.N(4000, 100000)
+	n := c.N(4000, 300000)
 	for i := 0; i < n; i++ {
 		if !c.Mine("lattice", i) {
 			continue
